@@ -414,7 +414,7 @@ pub fn run(cfg: &Cfg) -> i32 {
     let symfile = format!("{}/{}.c14.sym", if cfg.outdir.is_empty() { "/tmp" } else { &cfg.outdir }, cfg.shard);
     if cfg.rest.first().map(|x| x == "--replay-case").unwrap_or(false) {
         // vh c14 --replay-case m<seed>-<shard>-<i>
-        let parts: Vec<u64> = cfg.rest[1].trim_start_matches('m').split('-').map(|x| x.parse().unwrap()).collect();
+        let parts: Vec<u64> = cfg.rest[1].trim_start_matches('m').trim_end_matches('u').split('-').map(|x| x.parse().unwrap()).collect();
         let (input, kind) = input_at(parts[0], parts[1], parts[2], &corpus);
         println!("kind {kind}\n----\n{}\n----", String::from_utf8_lossy(&input));
         if cfg.rest.iter().any(|x| x == "--print") {
@@ -439,7 +439,8 @@ pub fn run(cfg: &Cfg) -> i32 {
             out.count("skipped_nesting_over_200");
             continue;
         }
-        let id = format!("m{}-{}-{}", cfg.seed, shard, i);
+        // unmutated (well-formed) inputs are marked: see the C14 plan
+        let id = format!("m{}-{}-{}{}", cfg.seed, shard, i, if kind == "unmutated" { "u" } else { "" });
         out.count(&format!("kind.{kind}"));
         if !out.begin(&id) {
             continue;
